@@ -135,8 +135,8 @@ impl Prop for C05 {
         v
     }
     fn strategy(&self, _tier: Tier) -> BoxedStrategy<GraphCase> {
-        let small = graph_strategy(&ALL_KINDS, 0, 8, edges_small, &[0, 1, 3, 3, 5, 6], 4);
-        let mid = graph_strategy(&ALL_KINDS, 9, 20, edges_large, &[0, 1, 3], 3);
+        let small = graph_strategy(&ALL_KINDS, 0, 8, edges_small, &[0, 1, 3, 3, 5, 6, 15], 4);
+        let mid = graph_strategy(&ALL_KINDS, 9, 20, edges_large, &[0, 1, 3, 15], 3);
         let large = graph_strategy(&ALL_KINDS, 21, 30, edges_large, &[0, 1, 3], 3);
         let boundary = boundary_graph_strategy(&ALL_KINDS, edges_large, &[0, 1, 3], 3, 255);
         let big = big_graph_strategy(&[0, 1], 300, 3000, &[0, 1]);
@@ -163,6 +163,14 @@ impl Prop for C05 {
         let modes: Vec<bool> = if n > 260 { vec![ng.weighted] } else if ng.weighted { vec![true, false] } else { vec![false] };
         for weighted in modes {
             let w = if n <= 260 { weight_matrix(&ng, weighted) } else { vec![] };
+            if weighted && case.wmode == 15 {
+                // neighbouring doubles: the oracles need exact sums, which holds iff every distance is below 4
+                if !crate::oracle::ulp_exact(&floyd(&w)) {
+                    out.class("wmode_15_skipped_distance_4_or_more");
+                    continue;
+                }
+                out.class("wmode_15_routes_one_ulp_apart_possible");
+            }
             let raw = if n <= 8 {
                 let b = betweenness_brute(&w);
                 // self-test of the fast oracle used for the large-size class
